@@ -1022,19 +1022,45 @@ impl CrashX {
             } else {
                 vec![vio::PageFaultAt::Submission]
             };
+            // what the completion-queue entry of a page write may report instead of success:
+            // an error while the worker thread's errno still holds EINTR from an unrelated earlier
+            // syscall (must be reported like any failed write); a short count once (the write is
+            // repeated: success, nothing lost); a short count every time (must end with an error,
+            // never a hang)
+            let cqe_modes: Vec<Option<(&'static str, vio::CqeFault)>> = if *tag == "write" && (file == "ln" || file == "bbn" || file == "ht") && case["cqe"].as_bool().unwrap_or(true) {
+                vec![
+                    None,
+                    Some(("error reported by the completion entry while errno holds a stale EINTR", vio::CqeFault { result: -libc::EIO, stale_errno: Some(libc::EINTR), times: 1 })),
+                    Some(("short write (100 bytes) reported once", vio::CqeFault { result: 100, stale_errno: None, times: 1 })),
+                    Some(("short write (100 bytes) reported every time", vio::CqeFault { result: 100, stale_errno: None, times: u32::MAX })),
+                ]
+            } else {
+                vec![None]
+            };
+            for cqe in cqe_modes.iter() {
             for persistent in [false, true] {
                 for page_at in page_modes.iter() {
+                    if cqe.is_some() && (persistent || *page_at == vio::PageFaultAt::Completion) {
+                        continue;
+                    }
+                    if matches!(cqe, Some((_, c)) if c.times == u32::MAX) && !case["cqe_persistent"].as_bool().unwrap_or(true) {
+                        continue;
+                    }
                     step_no += 1;
                     if step_no <= skip {
                         continue;
                     }
                     let fclass = format!("{}:{}", if file.starts_with("rollback") { "rollback-segment" } else { file.as_str() }, tag);
-                    let what = format!(
-                        "op #{target} ({}) with {}failure injected at {file}:{tag}#{ordinal}{}",
-                        ops[target].as_object().unwrap().keys().next().unwrap(),
-                        if persistent { "persistent " } else { "" },
-                        if *page_at == vio::PageFaultAt::Completion { " (reported at completion)" } else { "" }
-                    );
+                    let what = match cqe {
+                        None => format!(
+                            "op #{target} ({}) with {}failure injected at {file}:{tag}#{ordinal}{}",
+                            ops[target].as_object().unwrap().keys().next().unwrap(),
+                            if persistent { "persistent " } else { "" },
+                            if *page_at == vio::PageFaultAt::Completion { " (reported at completion)" } else { "" }
+                        ),
+                        Some((desc, _)) => format!("op #{target} ({}) with {file}:{tag}#{ordinal}: {desc}", ops[target].as_object().unwrap().keys().next().unwrap()),
+                    };
+                    let benign = matches!(cqe, Some((_, c)) if c.result > 0 && c.times == 1);
                     println!("{}", json!({"progress": format!("{step_no}|{fclass}|{what}")}));
                     out.transitions += 1;
                     let mut record_v = |fp: String, msg: String, found: &mut BTreeMap<String, String>| {
@@ -1069,6 +1095,7 @@ impl CrashX {
                         persistent,
                         page_at: *page_at,
                         abort: false,
+                        cqe: cqe.as_ref().map(|c| c.1),
                     });
                     nomt::verif::lazy::enable(lazy);
                     let r = std::panic::catch_unwind(std::panic::AssertUnwindSafe(|| {
@@ -1081,13 +1108,22 @@ impl CrashX {
                     nomt::verif::lazy::enable(false);
                     let (events, fired) = vio::disable();
                     let ftr = Trace::new(events);
+                    if std::env::var("MC_VERBOSE").is_ok() {
+                        eprintln!("step {step_no}: {what}: fired={fired} result={}", match &r { Err(_) => "panic".to_string(), Ok(Ok(())) => "ok".to_string(), Ok(Err(v)) => format!("err {}: {}", v.fingerprint, v.msg.chars().take(160).collect::<String>()) });
+                    }
                     if fired == 0 {
                         out.goals.push("fault-not-reached");
                         let _ = ex.finish(Ok(()));
                         continue;
                     }
                     out.goals.push("fault-fired");
-                    let fired_in_call = ftr.events.iter().any(|e| e.injected && e.seq < ftr.returned.unwrap_or(u64::MAX));
+                    let fired_in_call = if cqe.is_some() {
+                        // (the completion entry is consumed before the completion is delivered, hence
+                        // before the call that waits for it can return)
+                        true
+                    } else {
+                        ftr.events.iter().any(|e| e.injected && e.seq < ftr.returned.unwrap_or(u64::MAX))
+                    };
                     // the post-state is acceptable as soon as the switch-over record may have reached
                     // the file: i.e. once the meta write was issued (whether or not its fsync failed)
                     let meta_durable = ftr.events.iter().any(|e| e.file == "meta" && matches!(e.kind, vio::Kind::Write { .. }) && !e.injected);
@@ -1100,6 +1136,24 @@ impl CrashX {
                             );
                             // the executor may be in an odd state: leak it rather than unwinding again
                             std::mem::forget(ex);
+                            continue;
+                        }
+                        Ok(Ok(())) if benign => {
+                            // a write reported short once is repeated: the call succeeds and the
+                            // store must hold exactly the new state
+                            out.goals.push("short-write-once-retried");
+                            let dir = ex.dir.clone();
+                            let _ = ex.finish(Ok(()));
+                            match std::panic::catch_unwind(|| crate::driver::open_nomt_retry::<B3>(&dir, &cfg0, 10)) {
+                                Err(_) => record_v(format!("reopen-panic:{fclass}"), format!("{what}: reopening afterwards panicked"), &mut found),
+                                Ok(Err(e)) => record_v(format!("reopen-failed:{fclass}"), format!("{what}: reopening afterwards failed: {e:#}"), &mut found),
+                                Ok(Ok(n)) => {
+                                    let sides = Sides { old: &new, new: None, new_required_from: None };
+                                    if let Err(v) = side_audit(&n, &sides, &uni, 0, &what) {
+                                        record_v(format!("short-write-retry:{fclass}:{}", v.fingerprint), v.msg, &mut found);
+                                    }
+                                }
+                            }
                             continue;
                         }
                         Ok(Ok(())) => {
@@ -1166,6 +1220,7 @@ impl CrashX {
                         }
                     }
                 }
+            }
             }
         }
         out.sig = fnv_str(&format!("{}:{}", targets.len(), found.len()));
@@ -1288,6 +1343,7 @@ pub fn kill_child_main(prop: &str) -> i32 {
         persistent: false,
         page_at: vio::PageFaultAt::Submission,
         abort: true,
+        cqe: None,
     });
     nomt::verif::lazy::enable(case["lazy"].as_bool().unwrap_or(false));
     let r = ex.step(target, &ops[target]);
